@@ -8,7 +8,7 @@ use a5::projections::DodecahedronProjection;
 use std::io::{BufRead, Read, Write};
 use std::process::{Child, Command, Stdio};
 use std::sync::atomic::{AtomicUsize, Ordering};
-use std::sync::{Arc, Mutex};
+use std::sync::Mutex;
 use std::time::{Duration, Instant};
 
 pub const MAX_RESULT_WORDS: usize = 2 * 65536 + 16; // 4^8 cells (or lon/lat pairs)
@@ -17,12 +17,44 @@ pub fn self_exe() -> String {
     std::env::current_exe().expect("current_exe").to_string_lossy().to_string()
 }
 
-/// `sim ref`: read ops (one JSON per line) from stdin, execute each as it comes, print one
-/// RefEntry JSON per line. In pristine mode the parent sends exactly one line.
+fn ref_entry_for(op: &Op) -> RefEntry {
+    let env = Env::new(3, 2);
+    let t0 = Instant::now();
+    let outcome = exec(&op.reference_form(), &env);
+    let us = t0.elapsed().as_micros() as u64;
+    // footprint: which memo slots does this op fill when it starts cold?
+    let foot = match op {
+        Op::Forward { .. } | Op::Inverse { .. } => {
+            // run again on a brand-new explicit instance and look at it
+            let ienv = Env::new(1, 0);
+            if let Some(o2) = op.with_target(Target::Inst(0)) {
+                let _ = exec(&o2, &ienv);
+            }
+            let g = ienv.insts[0].lock().unwrap();
+            match g.as_ref() {
+                Some(p) => Foot::from_view(&p.verif_memo_view()),
+                None => Foot::default(),
+            }
+        }
+        o if o.uses_tl() => Foot::from_view(&DodecahedronProjection::verif_thread_memo_view()),
+        _ => Foot::default(),
+    };
+    let (status, outcome) = match &outcome {
+        Outcome::Ok(v) if v.len() > MAX_RESULT_WORDS => ("too_big", None),
+        _ => ("ok", Some(outcome)),
+    };
+    RefEntry { status: status.into(), outcome, foot, us }
+}
+
+fn bad_entry(status: &str) -> RefEntry {
+    RefEntry { status: status.into(), outcome: None, foot: Foot::default(), us: 0 }
+}
+
+/// `sim ref`: read ops (one JSON per line) from stdin, execute each as it comes IN THIS PROCESS,
+/// print one RefEntry JSON per line. Pristine only for the first line.
 pub fn ref_main() {
     crate::ops::quiet_panics();
     let stdin = std::io::stdin();
-    let env = Env::new(3, 2);
     for line in stdin.lock().lines() {
         let line = match line {
             Ok(l) => l,
@@ -31,41 +63,68 @@ pub fn ref_main() {
         if line.trim().is_empty() {
             continue;
         }
-        let op: Op = match serde_json::from_str(&line) {
-            Ok(o) => o,
-            Err(e) => {
-                println!("{{\"status\":\"bad_op\",\"outcome\":null,\"foot\":{{\"face\":0,\"sph\":[0,0,0,0]}},\"us\":0,\"err\":{:?}}}", e.to_string());
-                continue;
-            }
+        let e = match serde_json::from_str::<Op>(&line) {
+            Ok(op) => ref_entry_for(&op),
+            Err(_) => bad_entry("bad_op"),
         };
-        let t0 = Instant::now();
-        let outcome = exec(&op.reference_form(), &env);
-        let us = t0.elapsed().as_micros() as u64;
-        // footprint: which memo slots does this op fill when it starts cold?
-        let foot = match &op {
-            Op::Forward { .. } | Op::Inverse { .. } => {
-                // run again on a brand-new explicit instance and look at it
-                let ienv = Env::new(1, 0);
-                if let Some(o2) = op.with_target(Target::Inst(0)) {
-                    let _ = exec(&o2, &ienv);
-                }
-                let g = ienv.insts[0].lock().unwrap();
-                match g.as_ref() {
-                    Some(p) => Foot::from_view(&p.verif_memo_view()),
-                    None => Foot::default(),
-                }
-            }
-            o if o.uses_tl() => Foot::from_view(&DodecahedronProjection::verif_thread_memo_view()),
-            _ => Foot::default(),
-        };
-        let (status, outcome) = match &outcome {
-            Outcome::Ok(v) if v.len() > MAX_RESULT_WORDS => ("too_big", None),
-            _ => ("ok", Some(outcome)),
-        };
-        let e = RefEntry { status: status.into(), outcome, foot, us };
         let mut out = std::io::stdout().lock();
         let _ = writeln!(out, "{}", serde_json::to_string(&e).unwrap());
         let _ = out.flush();
+    }
+}
+
+extern "C" {
+    fn fork() -> i32;
+    fn waitpid(pid: i32, status: *mut i32, options: i32) -> i32;
+    fn alarm(seconds: u32) -> u32;
+    fn _exit(code: i32) -> !;
+}
+
+/// `sim zygote`: a process that never calls into a5 itself. For every op line on stdin it forks;
+/// the child (a copy of the untouched process image: cold thread-locals, cold lazy tables) runs
+/// the op as its first library call, prints the RefEntry and exits. A child that aborts, is
+/// killed by the address-space limit or exceeds the wall-clock cap yields a status line
+/// instead. One line out per line in.
+pub fn zygote_main(cap_secs: u32) {
+    crate::ops::quiet_panics();
+    let stdin = std::io::stdin();
+    let mut line = String::new();
+    loop {
+        line.clear();
+        match stdin.lock().read_line(&mut line) {
+            Ok(0) | Err(_) => break,
+            Ok(_) => {}
+        }
+        if line.trim().is_empty() {
+            continue;
+        }
+        let _ = std::io::stdout().flush();
+        let pid = unsafe { fork() };
+        if pid == 0 {
+            unsafe { alarm(cap_secs) };
+            let e = match serde_json::from_str::<Op>(&line) {
+                Ok(op) => ref_entry_for(&op),
+                Err(_) => bad_entry("bad_op"),
+            };
+            {
+                let mut out = std::io::stdout().lock();
+                let _ = writeln!(out, "{}", serde_json::to_string(&e).unwrap());
+                let _ = out.flush();
+            }
+            unsafe { _exit(0) };
+        } else if pid < 0 {
+            println!("{}", serde_json::to_string(&bad_entry("fork_failed")).unwrap());
+        } else {
+            let mut status: i32 = 0;
+            unsafe { waitpid(pid, &mut status, 0) };
+            let exited_ok = (status & 0x7f) == 0 && ((status >> 8) & 0xff) == 0;
+            if !exited_ok {
+                let sig = status & 0x7f;
+                let st = if sig == 14 { "timeout" } else { "abort" };
+                println!("{}", serde_json::to_string(&bad_entry(st)).unwrap());
+            }
+        }
+        let _ = std::io::stdout().flush();
     }
 }
 
@@ -124,7 +183,7 @@ pub fn run_child(args: &[&str], input: &str, timeout: Duration, vmem_kb: u64) ->
 }
 
 pub const REF_TIMEOUT: Duration = Duration::from_secs(10);
-pub const REF_VMEM_KB: u64 = 1_500_000;
+pub const REF_VMEM_KB: u64 = 300_000;
 
 /// Pristine-process reference of one op.
 pub fn pristine_ref(op: &Op) -> RefEntry {
@@ -142,28 +201,65 @@ pub fn pristine_ref(op: &Op) -> RefEntry {
     RefEntry { status: st.into(), outcome: None, foot: Foot::default(), us: 0 }
 }
 
-/// Pristine references for many ops, `jobs` children at a time. Order of results = order of ops.
+struct Zygote {
+    child: Child,
+    stdin: std::process::ChildStdin,
+    stdout: std::io::BufReader<std::process::ChildStdout>,
+}
+
+impl Zygote {
+    fn start() -> Option<Zygote> {
+        let mut child = spawn_limited(&["zygote"], REF_VMEM_KB).ok()?;
+        let stdin = child.stdin.take()?;
+        let stdout = std::io::BufReader::new(child.stdout.take()?);
+        Some(Zygote { child, stdin, stdout })
+    }
+    fn ask(&mut self, op: &Op) -> Option<RefEntry> {
+        writeln!(self.stdin, "{}", op.key()).ok()?;
+        self.stdin.flush().ok()?;
+        let mut l = String::new();
+        let n = self.stdout.read_line(&mut l).ok()?;
+        if n == 0 {
+            return None;
+        }
+        serde_json::from_str::<RefEntry>(l.trim()).ok()
+    }
+}
+
+impl Drop for Zygote {
+    fn drop(&mut self) {
+        let _ = self.child.kill();
+        let _ = self.child.wait();
+    }
+}
+
+/// Pristine references for many ops, `jobs` zygotes at a time. Order of results = order of ops.
 pub fn pristine_refs(ops: &[Op], jobs: usize) -> Vec<RefEntry> {
-    let next = Arc::new(AtomicUsize::new(0));
-    let results: Arc<Mutex<Vec<Option<RefEntry>>>> = Arc::new(Mutex::new(vec![None; ops.len()]));
-    let ops = Arc::new(ops.to_vec());
-    let mut hs = Vec::new();
-    for _ in 0..jobs.max(1) {
-        let next = next.clone();
-        let results = results.clone();
-        let ops = ops.clone();
-        hs.push(std::thread::spawn(move || loop {
-            let i = next.fetch_add(1, Ordering::Relaxed);
-            if i >= ops.len() {
-                break;
-            }
-            let e = pristine_ref(&ops[i]);
-            results.lock().unwrap()[i] = Some(e);
-        }));
-    }
-    for h in hs {
-        let _ = h.join();
-    }
-    let r = results.lock().unwrap();
-    r.iter().map(|e| e.clone().unwrap()).collect()
+    let next = AtomicUsize::new(0);
+    let results: Mutex<Vec<Option<RefEntry>>> = Mutex::new(vec![None; ops.len()]);
+    std::thread::scope(|s| {
+        for _ in 0..jobs.max(1).min(ops.len().max(1)) {
+            s.spawn(|| {
+                let mut z = Zygote::start();
+                loop {
+                    let i = next.fetch_add(1, Ordering::Relaxed);
+                    if i >= ops.len() {
+                        break;
+                    }
+                    let mut e = None;
+                    if let Some(zy) = z.as_mut() {
+                        e = zy.ask(&ops[i]);
+                    }
+                    if e.is_none() {
+                        // zygote unusable: fall back to one exec per op, and try a new zygote
+                        e = Some(pristine_ref(&ops[i]));
+                        z = Zygote::start();
+                    }
+                    results.lock().unwrap()[i] = e;
+                }
+            });
+        }
+    });
+    let r = results.into_inner().unwrap();
+    r.into_iter().map(|e| e.unwrap()).collect()
 }
